@@ -90,6 +90,7 @@ type c09world struct {
 	sugars   []*zap.SugaredLogger
 	logs     *observer.ObservedLogs
 	handler  slog.Handler
+	handler3 slog.Handler // three pending groups: derivations from it share whatever backing storage the handler keeps
 	bws      *zapcore.BufferedWriteSyncer
 	locked   zapcore.WriteSyncer
 	combined zapcore.WriteSyncer
@@ -160,11 +161,13 @@ func runC09(c *Ctx) {
 		base.Named("svc"),
 		base.WithLazy(zap.String("a", "b")).With(zap.Int("c", 1)),
 		base.WithLazy(zap.Int("l1", 1)).WithLazy(zap.Int("l2", 2)),
+		base.With(zap.Reflect("ctx", map[string]any{"k": []int{1, 2}}), zap.Int("after", 1)),
 	}
 	for _, l := range w.loggers {
 		w.sugars = append(w.sugars, l.Sugar())
 	}
 	w.handler = zapslog.NewHandler(core)
+	w.handler3 = w.handler.WithGroup("a").WithGroup("b").WithGroup("c")
 	w.bws = &zapcore.BufferedWriteSyncer{WS: &raceSink{}, Size: pick(g, 16, 64, 256), FlushInterval: time.Second}
 	w.bws.Clock = clk.For(unsafe.Pointer(w.bws), unsafe.Sizeof(*w.bws))
 	w.locked = zapcore.Lock(&raceSink{})
@@ -200,7 +203,7 @@ func runC09(c *Ctx) {
 	for t := range progs {
 		n := 1 + g.Draw(maxOps)
 		for i := 0; i < n; i++ {
-			op := c09op{kind: enabledKinds[g.Draw(len(enabledKinds))], a: g.Draw(6), b: g.Draw(8)}
+			op := c09op{kind: enabledKinds[g.Draw(len(enabledKinds))], a: g.Draw(7), b: g.Draw(8)}
 			if op.kind == 11 {
 				usesBWS = true
 			}
@@ -278,7 +281,11 @@ func c09exec(c *Ctx, w *c09world, t, i int, op c09op) {
 	lv := stdLevels[op.b%4]
 	switch op.kind {
 	case 0:
-		l.Log(lv, "m", zap.Int("t", t), zap.Int("i", i), zap.Duration("d", time.Second), zap.Error(errors.New("e")))
+		if op.a%3 == 0 {
+			l.Log(lv, "m", zap.Int("t", t), zap.Reflect("r", map[string]int{"i": i}), zap.Error(errors.New("e")))
+		} else {
+			l.Log(lv, "m", zap.Int("t", t), zap.Int("i", i), zap.Duration("d", time.Second), zap.Error(errors.New("e")))
+		}
 	case 1:
 		switch op.b % 3 {
 		case 0:
@@ -296,7 +303,11 @@ func c09exec(c *Ctx, w *c09world, t, i int, op c09op) {
 		var ch *zap.Logger
 		switch op.b % 4 {
 		case 0:
-			ch = l.With(zap.Int("t", t))
+			if op.a%2 == 0 {
+				ch = l.With(zap.Int("t", t))
+			} else {
+				ch = l.With(zap.Reflect("r", map[string]int{"t": t}), zap.Any("s", struct{ A, B int }{t, i}))
+			}
 		case 1:
 			ch = l.WithLazy(zap.Int("t", t))
 		case 2:
@@ -362,11 +373,16 @@ func c09exec(c *Ctx, w *c09world, t, i int, op c09op) {
 		}
 	case 10:
 		h := w.handler
-		switch op.b % 3 {
+		if op.a%2 == 1 {
+			h = w.handler3
+		}
+		switch op.b % 4 {
 		case 1:
 			h = h.WithAttrs([]slog.Attr{slog.Int("t", t)})
 		case 2:
 			h = h.WithGroup("g").WithAttrs([]slog.Attr{slog.String("k", "v")})
+		case 3:
+			h = h.WithGroup(fmt.Sprintf("g%d", t))
 		}
 		rec := slog.NewRecord(time.Unix(0, 0), slog.LevelWarn, "slog", 0)
 		rec.AddAttrs(slog.Int("i", i))
